@@ -81,10 +81,12 @@ def engine_hash():
                 h.update(f.encode())
                 h.update(fh.read())
     d = os.path.join(VERIF, 'replay')
-    for f in sorted(os.listdir(d)):
-        with open(os.path.join(d, f), 'rb') as fh:
-            h.update(f.encode())
-            h.update(fh.read())
+    for root, dirs, files in os.walk(d):
+        dirs.sort()
+        for f in sorted(files):
+            with open(os.path.join(root, f), 'rb') as fh:
+                h.update(f.encode())
+                h.update(fh.read())
     return h.hexdigest()[:12]
 
 
@@ -143,7 +145,7 @@ def get_mir(repo=None, log=None):
     return out, time.time() - t0, False
 
 
-def _gen_replay_crate(repo, crate_dir):
+def _gen_replay_crate(repo, crate_dir, disabled=()):
     os.makedirs(os.path.join(crate_dir, 'src'), exist_ok=True)
     main_rs = open(os.path.join(repo, 'src', 'main.rs')).read()
     mods = re.findall(r'^\s*(?:pub\s+)?mod\s+(\w+)\s*;', main_rs, re.M)
@@ -155,6 +157,8 @@ def _gen_replay_crate(repo, crate_dir):
             src = os.path.join(repo, 'src', m, 'mod.rs')
         hook = INCLUDE_MODULES.get(m)
         hookp = os.path.join(rdir, hook) if hook else None
+        if hook and hook in disabled:
+            hookp = os.path.join(rdir, 'stubs', hook)
         if hookp and os.path.exists(hookp):
             parts.append('mod %s {\n  include!(%s);\n  include!(%s);\n}\n' % (m, json.dumps(src), json.dumps(hookp)))
         else:
@@ -194,13 +198,23 @@ def get_replay(repo=None, release=False):
         if os.path.exists(out):
             return out, time.time() - t0, True
         crate = os.path.join(BUILD, 'replaycrate')
-        _gen_replay_crate(repo, crate)
         env = _env()
         env['CARGO_TARGET_DIR'] = os.path.join(BUILD, 'replaytarget')
         cmd = ['cargo', 'build', '--offline'] + (['--release'] if release else [])
-        r = subprocess.run(cmd, cwd=crate, env=env, stdout=subprocess.PIPE, stderr=subprocess.PIPE)
-        if r.returncode != 0:
-            raise BuildError('replay build failed: ' + r.stderr.decode(errors='replace')[-3000:])
+        disabled = set()
+        while True:
+            _gen_replay_crate(repo, crate, disabled)
+            r = subprocess.run(cmd, cwd=crate, env=env, stdout=subprocess.PIPE, stderr=subprocess.PIPE)
+            if r.returncode == 0:
+                break
+            # a hook file may not compile against a tree that changed private signatures: fall back to its stub
+            errtxt = r.stderr.decode(errors='replace')
+            bad = [h for h in INCLUDE_MODULES.values() if h not in disabled and os.path.exists(os.path.join(VERIF, 'replay', 'stubs', h))
+                   and ('replay/' + h) in errtxt]
+            if not bad:
+                raise BuildError('replay build failed: ' + errtxt[-3000:])
+            disabled.update(bad)
+            sys.stderr.write('[frontend] replay hooks %s do not compile against this tree; using stubs\n' % sorted(bad))
         binp = os.path.join(env['CARGO_TARGET_DIR'], 'release' if release else 'debug', 'tmreplay')
         tmp = out + '.tmp%d' % os.getpid()
         shutil.copy2(binp, tmp)
